@@ -14,7 +14,15 @@ TraceInit ==
     /\ l = 1
     /\ InitWith([role |-> Traces[tid].cfg.role, ping |-> Traces[tid].cfg.ping, async |-> Traces[tid].cfg.async])
 IsEvent(a) == l <= Len(Ev) /\ Ev[l].a = a /\ l' = l + 1 /\ UNCHANGED tid
-Bind == ProjOf(st') = Ev[l].obs
+(* fields the specification leaves open (Open, "any") match any observed value *)
+Bind == LET e == ProjOf(st')
+            o == Ev[l].obs
+        IN /\ (e.closeFrames = Open \/ e.closeFrames = o.closeFrames)
+           /\ (e.sentCode = Open \/ e.sentCode = o.sentCode)
+           /\ (e.nCode = Open \/ e.nCode = o.nCode)
+           /\ (e.nReason = "any" \/ e.nReason = o.nReason)
+           /\ e.dataAfterClose = o.dataAfterClose /\ e.pings = o.pings /\ e.tcpOpen = o.tcpOpen
+           /\ e.notified = o.notified /\ e.delivered = o.delivered /\ e.err = o.err
 TrClose == IsEvent("close") /\ LocalClose(Ev[l].args[1], Ev[l].args[2]) /\ Bind
 TrWrite == IsEvent("write") /\ AppWrite /\ Bind
 TrMsg == IsEvent("msg") /\ MessageArrives /\ Bind
